@@ -74,6 +74,7 @@ class Opts:
     overlap: int = 0                # % of sets in which overlapping items are kept
     dot_star_suffix: int = 0        # % of anchored patterns that end in .*$
     max_depth: int = 3
+    max_star_height: int = 2        # nesting of variable quantifiers (re backtracks exponentially)
     max_rep: int = 4
     max_terms: int = 4
     max_alts: int = 3
@@ -192,8 +193,13 @@ def quantifier_bounds(draw: Any, o: Opts) -> Tuple[int, Optional[int], int]:
     return b[0], b[1], lazy
 
 
+def _variable(m: int, n: Optional[int]) -> bool:
+    return n is None or (n != m and n > 1)
+
+
 @st.composite
-def _term(draw: Any, o: Opts, depth: int) -> List[Any]:
+def _term(draw: Any, o: Opts, depth: int, vq: int = 0) -> List[Any]:
+    """``vq`` = number of enclosing variable quantifiers (bounded: backtracking in ``re``)."""
     if draw(_pct) < o.inner_anchors:
         return [draw(st.sampled_from(["^", "$"]))]
     x = draw(_pct)
@@ -202,7 +208,16 @@ def _term(draw: Any, o: Opts, depth: int) -> List[Any]:
     elif x < o.dot + o.sets:
         atom = draw(char_sets(o))
     elif x < o.dot + o.sets + o.groups and depth > 0:
-        atom = ["g", draw(_union(o, depth - 1))]
+        q = None  # type: Any
+        if draw(_pct) < o.quantified:
+            q = draw(quantifier_bounds(o))
+            if _variable(q[0], q[1]) and vq >= o.max_star_height:
+                q = (min(q[0], 2), min(q[0], 2), q[2])
+        inner_vq = vq + (1 if q is not None and _variable(q[0], q[1]) else 0)
+        atom = ["g", draw(_union(o, depth - 1, inner_vq))]
+        if q is not None:
+            return ["q", atom, q[0], q[1], q[2]]
+        return atom
     else:
         atom = ["c", draw(code_points(o))]
         if o.no_line_breaks and atom[1] in LINE_BREAKS:
@@ -214,14 +229,14 @@ def _term(draw: Any, o: Opts, depth: int) -> List[Any]:
 
 
 @st.composite
-def _concat(draw: Any, o: Opts, depth: int, min_terms: int = 0) -> List[Any]:
-    return ["cat", draw(st.lists(_term(o, depth), min_size=min_terms, max_size=o.max_terms))]
+def _concat(draw: Any, o: Opts, depth: int, min_terms: int = 0, vq: int = 0) -> List[Any]:
+    return ["cat", draw(st.lists(_term(o, depth, vq), min_size=min_terms, max_size=o.max_terms))]
 
 
 @st.composite
-def _union(draw: Any, o: Opts, depth: int) -> List[Any]:
+def _union(draw: Any, o: Opts, depth: int, vq: int = 0) -> List[Any]:
     n_alts = 1 if draw(_pct) < 55 else draw(st.integers(2, o.max_alts))
-    return ["u", [draw(_concat(o, depth)) for _ in range(n_alts)]]
+    return ["u", [draw(_concat(o, depth, 0, vq)) for _ in range(n_alts)]]
 
 
 @st.composite
@@ -566,7 +581,7 @@ def mutate_text(s: str, rnd: random.Random, edits: Optional[int] = None) -> str:
 # String samplers
 # ---------------------------------------------------------------------------
 
-_SAMPLE_CAP = 40
+_SAMPLE_CAP = 16
 
 
 def _in_items(cp: int, items: Sequence[Sequence[Optional[int]]]) -> bool:
@@ -728,6 +743,47 @@ def u16(s: str) -> str:
         else:
             out.append(c)
     return "".join(out)
+
+
+# ---------------------------------------------------------------------------
+# Safety net around Python's backtracking matcher
+# ---------------------------------------------------------------------------
+
+
+class TooSlow(Exception):
+    """The CPU-time allowance of :func:`cpu_limited` ran out."""
+
+
+def _on_vtalrm(signum: int, frame: Any) -> None:
+    raise TooSlow()
+
+
+def cpu_limited(fn: Any, seconds: float = 3.0) -> Tuple[bool, Any]:
+    """
+    Run ``fn()`` with an allowance of *user CPU time* of this process (``ITIMER_VIRTUAL``).
+
+    ``re`` backtracks exponentially on some patterns (``(a*)*b``); its matcher polls for
+    signals, so a virtual-time alarm ends such a match. The allowance is CPU time, not wall
+    time, so that machine load does not decide which cases are judged. Returns
+    ``(finished, result)``; callers count unfinished cases as excluded, never as failures.
+    Main thread only.
+    """
+    import signal
+
+    old = signal.signal(signal.SIGVTALRM, _on_vtalrm)
+    try:
+        try:
+            signal.setitimer(signal.ITIMER_VIRTUAL, seconds)
+            result = fn()
+            signal.setitimer(signal.ITIMER_VIRTUAL, 0)
+            return True, result
+        except TooSlow:
+            return False, None
+    except TooSlow:  # the alarm fired between the end of fn() and its cancellation
+        return False, None
+    finally:
+        signal.setitimer(signal.ITIMER_VIRTUAL, 0)
+        signal.signal(signal.SIGVTALRM, old)
 
 
 # ---------------------------------------------------------------------------
